@@ -19,7 +19,7 @@ from ..replay import Divergence
 
 SPEC_DIR = env.SPECS + "/reg"
 INVS = ["CurrentExists", "OwnOnlyWhileCurrent", "NoOrphans"]
-APROPS = ["DuplicateRejectedUnchanged", "CreationIsFresh", "NoCrossHouse", "SwitchKeepsNames"]
+APROPS = ["DuplicateRejectedUnchanged", "CreationIsFresh", "NoCrossHouse", "SwitchKeepsNames", "PruneFreesOnlyOwn"]
 KINDS = ("store", "tasker", "log", "frame")
 FD, FZ = ("d", ""), ("z", "")
 OWN = ("d", FD, FZ)
@@ -37,10 +37,11 @@ def _set(xs):
 
 def cfg_text(p, maxmade, maxextra, spec="Spec", closed=True, props=True):
     s = ("SPECIFICATION %s\nCONSTANTS\n  Classes = %s\n  HouseNames = %s\n  StoreNames = %s\n  TaskerNames = %s\n  LogNames = %s\n"
-         "  FrameNames = %s\n  MaxMade = %d\n  MaxExtra = %d\n  Clears = %s\n  ClearAllOffered = %s\n  Clones = %s\n  Queries = %s\n"
+         "  FrameNames = %s\n  MaxMade = %d\n  MaxExtra = %d\n  Clears = %s\n  ClearAllOffered = %s\n  Clones = %s\n  Prunes = %s\n  Queries = %s\n"
          "  Closed = %s\n" % (spec, _set(p["classes"]), _set(p.get("H", [])), _set(p.get("S", [])), _set(p.get("T", [])),
                               _set(p.get("L", [])), _set(p.get("F", [])), maxmade, maxextra, _set(p.get("clears", [])),
                               "TRUE" if p.get("clearall") else "FALSE", "TRUE" if p.get("clones") else "FALSE",
+                              "TRUE" if p.get("prunes") else "FALSE",
                               "TRUE" if p.get("queries") else "FALSE", "TRUE" if closed else "FALSE"))
     if props:
         s += "".join("INVARIANT %s\n" % x for x in INVS) + "".join("PROPERTY %s\n" % x for x in APROPS)
@@ -59,7 +60,10 @@ PROFILES = [
      "L": ["Log1", "x"], "clears": ["store", "log"], "clearall": True, "made": (3, 4), "extra": (1, 2)},
     # clones
     {"name": "clone", "classes": ["House", "Framer", "Frame"], "H": ["h1"], "T": ["f", "g"], "F": ["Frame1"], "clones": True,
-     "made": (4, 5), "extra": (1, 1)},
+     "prunes": True, "made": (4, 5), "extra": (1, 1)},
+    # de-registration (Framer.prune) with same-named framers in two houses and in no house
+    {"name": "prune", "classes": ["House", "Framer"], "H": ["h1", "h2"], "T": ["x"], "prunes": True,
+     "made": (6, 7), "extra": (1, 1)},
 ]
 
 
@@ -253,6 +257,9 @@ class RegAdapter:
         if name == "SwitchFramer":
             self.framers[(args[0], args[1])].assignFrameRegistry()
             return {"t": "done"}
+        if name == "Prune":
+            self.framers[(args[0], args[1])].prune()
+            return {"t": "pruned"}
         if name == "Clone":
             h, f, n = args
             orig = self.framers[(h, f)]
@@ -494,6 +501,11 @@ def _random_history(rng, nsteps):
                     n = rng.choice(pool["Framer"] + ["c1", "c2", "c3"])
                     if ad.current("frame") != (h, n):
                         do("Clone", (h, f, n), {"h": h, "f": f, "n": n})
+            elif c < 0.345 and ad.framers:
+                o, f = rng.choice(sorted(ad.framers))
+                if ("frame", (o, f)) in ad.spaces:
+                    do("Prune", (o, f), {"o": o, "f": f})
+                    read()
             elif c < 0.36:
                 cl = rng.choice(["Tasker", "Framer", "Log", "Frame", "Store"])
                 n = rng.choice(pool[cl])
@@ -544,7 +556,7 @@ def run_c47(ctx):
         return dot, tlc.run("Registry", cfg_text(p, maxmade, maxextra), spec_dir=SPEC_DIR, dump_dot=dot, deadlock=False,
                             tag="c47" + p["name"], workers=max(1, env.NCPU // 4))
 
-    with ThreadPoolExecutor(max_workers=4) as ex:
+    with ThreadPoolExecutor(max_workers=5) as ex:
         ran = list(ex.map(model, PROFILES))
     phases["tlc_graphs"] = round(time.time() - t0, 1)
     t0 = time.time()
@@ -561,6 +573,7 @@ def run_c47(ctx):
         need += ["ClearAll", "SwitchHouse"] if p.get("clearall") else []
         need += ["SwitchFramer"] if "Framer" in p["classes"] else []
         need += ["Clone"] if p.get("clones") else []
+        need += ["Prune"] if p.get("prunes") else []
         need += ["VerifyName", "Retrieve", "CreateBad"] if p.get("queries") else []
         tlc.require_coverage(res, need, "Registry/" + label)
         g = graph.load_dot(dot)
@@ -596,7 +609,7 @@ def run_c47(ctx):
     trs = [t for t in trs if t[-1]["ev"] != "EXCEPTION"]
     if not trs:
         return
-    allp = {"classes": list(KIND), "clears": list(KINDS), "clearall": True, "clones": True, "queries": True}
+    allp = {"classes": list(KIND), "clears": list(KINDS), "clearall": True, "clones": True, "prunes": True, "queries": True}
     cfg = cfg_text(allp, 100000, 0, spec="TraceSpec", closed=False) + "CONSTRAINT TraceOK\nCHECK_DEADLOCK FALSE\n"
     t0 = time.time()
     out = trace.validate("RegistryTrace", cfg, SPEC_DIR, trs, batch=ctx.pick(80, 125))
@@ -610,7 +623,7 @@ def run_c47(ctx):
             k = e["ev"] + "/" + e.get("res", {}).get("t", "-")
             kinds[k] = kinds.get(k, 0) + 1
     for k in ("CreateExplicit/ok", "CreateExplicit/err", "CreateAuto/ok", "Clone/ok", "Clone/err", "SwitchHouse/done",
-              "SwitchFramer/done", "Clear/cleared", "Read/-"):
+              "SwitchFramer/done", "Clear/cleared", "Prune/pruned", "Read/-"):
         if k not in kinds and not ctx.divs:
             raise tlc.TlcError("vacuous random histories: no %s" % k)
     for i, pref in sorted(out.rejected.items())[:10]:
